@@ -10,10 +10,10 @@ import (
 
 func init() {
 	register(&Prop{
-		ID: "C09",
-		Decided: "(1) in the counting window's consumer goroutine a delivery (callback/sendResult) is reachable only under buffered-count >= threshold, and the count compared is len(buffer-after-append) of that key; (2) the delivered batch is a fresh slice of length threshold copied from buf[:threshold], and the carried remainder is a fresh copy of buf[threshold:] with the same bound (no aliasing of the emitted batch with the live buffer); (3) the key encoder getKey is injective and NULL-distinct (keyenc); (4) only the Start goroutine receives from triggerChan and only it delivers (Trigger/Stop never flush a partial batch); (5) the idle-key reaper runs only under countStateTTL>0; (6) keyedBuffer/keyedCount/lastActive/stopped are accessed only under cw.mu.",
+		ID:         "C09",
+		Decided:    "(1) in the counting window's consumer goroutine a delivery (callback/sendResult) is reachable only under buffered-count >= threshold, and the count compared is len(buffer-after-append) of that key; (2) the delivered batch is a fresh slice of length threshold copied from buf[:threshold], and the carried remainder is a fresh copy of buf[threshold:] with the same bound (no aliasing of the emitted batch with the live buffer); (3) the key encoder getKey is injective and NULL-distinct (keyenc); (4) only the Start goroutine receives from triggerChan and only it delivers (Trigger/Stop never flush a partial batch); (5) the idle-key reaper runs only under countStateTTL>0; (6) keyedBuffer/keyedCount/lastActive/stopped are accessed only under cw.mu.",
 		NotDecided: "contents of the i-th batch under all interleavings of keys as a count (follows from the above only informally), aggregate values.",
-		Run: runC09,
+		Run:        runC09,
 	})
 }
 
@@ -98,7 +98,9 @@ func runC09(a *A) {
 			a.Und(fname(g)+"#batch", g.Pos(), "no delivery found")
 			return
 		}
-		isThr := func(v ssa.Value) bool { return v != nil && isFieldOf(TermOf(v, nil), "window.CountingWindow", "threshold") }
+		isThr := func(v ssa.Value) bool {
+			return v != nil && isFieldOf(TermOf(v, nil), "window.CountingWindow", "threshold")
+		}
 		for _, d := range delivered {
 			ms, ok := d.(*ssa.MakeSlice)
 			if !ok {
